@@ -22,6 +22,9 @@ ASSUMPTIONS = ["iterative solvers are oracles: dimensionless outputs compared wi
                "absolute constants inside scipy defaults (BFGS gtol, Nelder-Mead xatol/fatol) are exercised, not modelled"]
 
 
+KEY_LARGE = "C07:large-units-minimiser"
+
+
 def _run(kind, u, tol):
     params = dict(u=u)
     o = EC.make_eom(kind, params, M=30, errTol=tol["errTol"], pressRelErrTol=tol["prt"], maxIterations=tol["maxIt"],
@@ -88,8 +91,15 @@ def search(rep: C.Report, tier: str, broken):
                 "initialWallThickness*Tn": float(ws.initialWallThickness) * Tn, "meanFreePath*Tn": float(ws.eom.meanFreePathScale) * Tn,
                 "momentumFalloff/Tn": float(ws.grid.momentumFalloffT) / Tn}
     mbase = mrun(1.0)
-    for u in ((1e-2, 1e2) if tier == "quick" else (1e-2, 0.2, 13.0, 1e2)):
-        got = mrun(u)
+    # the base model has T ~ 1; a GeV-like model (the same potential with T ~ 100) under factors up to 1e2 reaches 1e4
+    for u in ((1e-2, 1e2, 3e3, 1e4) if tier == "quick" else (1e-2, 0.2, 13.0, 1e2, 1e3, 3e3, 1e4)):
+        try:
+            got = mrun(u)
+        except Exception as ex:  # noqa: BLE001
+            rep.violation(f"WallGoManager pipeline fails under the unit factor {u} although it works for the factor 1",
+                          {"unit_factor": u, "error": f"{type(ex).__name__}: {str(ex)[:300]}", "base": mbase,
+                           "how": "harness/manager_common.new_manager(20, 1e-3, u=u).solveWall(settings())"}, finding_key="C07:manager:raises")
+            continue
         rep.case(key=("manager", u))
         rep.count("manager runs")
         bad = []
@@ -106,6 +116,36 @@ def search(rep: C.Report, tier: str, broken):
             rep.violation(f"WallGoManager results are not covariant under the unit factor {u}: {bad}",
                           {"unit_factor": u, "base": mbase, "scaled": got, "differing": bad,
                            "how": "harness/manager_common.new_manager(20, 1e-3, u=u).solveWall(settings())"}, finding_key=f"C07:manager:{','.join(sorted(bad))}")
+    # two-field GeV-like model (Tn = 100 u) through the manager: offsets and both widths as well
+    def xrun(u):
+        m, _model = MC.new_xsm_manager(u=u)
+        res = m.solveWall(MC.settings())
+        Tn = 100.0 * u
+        return {"vw": res.wallVelocity, "success": res.success, "vJ": float(m.hydrodynamics.vJ), "vLTE": float(m.wallSpeedLTE()),
+                "widths*Tn": (np.asarray(res.wallWidths) * Tn).tolist(), "offsets": np.asarray(res.wallOffsets).tolist(),
+                "Tplus/Tn": res.temperaturePlus / Tn}
+    xbase = xrun(1.0)
+    for u in ((1e-2, 10.0, 30.0) if tier == "quick" else (1e-2, 0.1, 10.0, 30.0, 100.0)):
+        rep.case(key=("xsm-manager", u))
+        rep.count("xsm manager runs")
+        try:
+            got = xrun(u)
+        except Exception as ex:  # noqa: BLE001
+            rep.violation(f"two-field model: WallGoManager pipeline fails under the unit factor {u} although it works for the factor 1",
+                          {"unit_factor": u, "error": f"{type(ex).__name__}: {str(ex)[:300]}", "base": xbase,
+                           "how": "harness/manager_common.new_xsm_manager(u=u)[0].solveWall(settings())"},
+                          finding_key=KEY_LARGE if u >= 30 else "C07:xsm:raises")
+            continue
+        bad = [q for q, t in (("vJ", 1e-6), ("vLTE", 5e-5), ("Tplus/Tn", 1e-3)) if abs(xbase[q] - got[q]) > t * abs(xbase[q])]
+        if xbase["success"] != got["success"] or got["vw"] is None or abs(xbase["vw"] - got["vw"]) > 2e-3:
+            bad.append("vw")
+        if max(abs(a - b) for a, b in zip(xbase["widths*Tn"], got["widths*Tn"])) > 0.03 * max(xbase["widths*Tn"]):
+            bad.append("widths*Tn")
+        if max(abs(a - b) for a, b in zip(xbase["offsets"], got["offsets"])) > 0.05:
+            bad.append("offsets")
+        if bad:
+            rep.violation(f"two-field model: WallGoManager results are not covariant under the unit factor {u}: {bad}",
+                          {"unit_factor": u, "base": xbase, "scaled": got, "differing": bad}, finding_key=f"C07:xsm:{','.join(sorted(bad))}")
     # formula level on real objects: thermodynamics and hydrodynamics of rescaled models agree pointwise by the proved weights
     import models
     for u in ((1e-2, 1e2) if tier == "quick" else (1e-2, 0.3, 17.0, 1e2)):
